@@ -31,7 +31,7 @@ def h_w(w):
 
 
 def to_harness(c):
-    L = ["case %s" % c["id"]]
+    L = ["case %s" % c["id"]] + (["wscale %d" % c["wscale"]] if c.get("wscale") else [])
     if c.get("spec") is not None:
         L.append("spec %d %d %d %d %d %d" % tuple(c["spec"]))
         for n in c["nodes"]:
@@ -326,10 +326,11 @@ class CommProp(props.BaseProp):
     def case_json(self, c):
         return {"id": c["id"], "spec": list(c["spec"]) if c.get("spec") is not None else None,
                 "nodes": [list(n) for n in c["nodes"]], "edges": [list(e) for e in c["edges"]],
-                "calls": [list(x) for x in c["calls"]]}
+                "calls": [list(x) for x in c["calls"]], "wscale": c.get("wscale", 0)}
 
     def case_from_json(self, j):
-        return {"id": j.get("id", "replay"), "spec": tuple(j["spec"]) if j.get("spec") is not None else None,
+        return {"id": j.get("id", "replay"), "wscale": j.get("wscale", 0),
+                "spec": tuple(j["spec"]) if j.get("spec") is not None else None,
                 "nodes": [tuple(n) for n in j["nodes"]], "edges": [tuple(e) for e in j["edges"]],
                 "calls": [tuple(x[:4]) + ([list(s) for s in x[4]],) if x[0] == "mod" else tuple(x)
                           for x in j["calls"]]}
@@ -555,6 +556,7 @@ class C12Prop(CommProp):
 
     def gen(self, seed, n):
         r = gv.SplitMix(seed * 1000003 + 12)
+        r2 = gv.SplitMix(seed * 7919 + 1212)
         cases = []
         for i in range(n):
             g = gen_graph(r, 8, spec=ALL_SPECS[(i + r.below(96) * (i >= 96)) % 96], want_edges=(i % 12 != 0))
@@ -565,8 +567,11 @@ class C12Prop(CommProp):
                 fam = family(r, g["names"], kind)
                 gn, gd = r.pick(GAMMAS + [(0, 0)])
                 calls.append(("mod", r.below(2), gn, gd, [sorted(set(s)) for s in fam]))
-            cases.append({"id": "m%d" % i, "spec": g["spec"], "nodes": g["nodes"], "edges": g["edges"],
-                          "calls": calls})
+            c = {"id": "m%d" % i, "spec": g["spec"], "nodes": g["nodes"], "edges": g["edges"], "calls": calls}
+            if any(e[2] is not None for e in g["edges"]) and r2.below(100) < 20:
+                # dyadic weight scale applied inside the harness (see centgen.py); modularity is invariant
+                c["wscale"] = r2.pick([-60, -3, 40])
+            cases.append(c)
         return cases
 
     def nontrivial(self, c, o):
@@ -903,3 +908,4 @@ C17.manifest = {
     "technique": "Coq proof (Permutation / sorting canonicity) + repeated-call / cross-pool / cross-process oracle on "
                  "the implementation + correspondence vs vm_compute model",
 }
+C12.rule += ' WEIGHT VARIANTS (separate PRNG stream): 20% of the weighted cases are run with a dyadic weight scale applied inside the harness (all weights x 2^k on input, weight-valued observations / 2^k on output, k in {-60, -3, 40}; exact in binary64, so the observations must equal those of the unscaled integers the model and the oracle use): path-length differences far below f64::EPSILON, all weights below 1, large magnitudes.'
